@@ -10,15 +10,16 @@ STREAM_PREDS = ("Bos", "TagsSecond", "SeqFromZero", "LastPageEos", "GranuleExact
 
 def run_ogg(ctx):
     quick = ctx.quick
-    # 1. exhaustive model checks of the transcribed page construction / writers (intended variant): the normative
+    # 1. exhaustive model checks of the transcribed page construction / writers (Impl = "current", the code as it is): the normative
     #    operators hold on every reachable state; the module's assumption LacingHolds covers every packet length
     #    around k*255, 255*255 and 2*255*255
     models = [("Ogg_MC", "Ogg_MC")] if quick else \
              [("Ogg_MC", "Ogg_MCt"), ("Ogg_MC", "Ogg_MC3"), ("Ogg_MC", "Ogg_MCtr")]
     mc = start_models(ctx, models, workers=4)
-    # 1b. the as-is variant (legacy writer on a plain io.Writer): TLC itself must exhibit the missing EOS
-    asis_ctx = SubCtx(ctx, "asis")
-    asis_job = Job(lambda: vlib.run_tlc(asis_ctx, "Ogg_MC", "Ogg_asis", workers=1, quiet_ok=True, timeout=300))
+    # 1b. the variant of the originally pinned code (legacy writer on a plain io.Writer, repaired since by ada877e):
+    #     TLC itself exhibits the missing EOS - documented counterexample, not a statement about the current code
+    pinned_ctx = SubCtx(ctx, "pinned")
+    pinned_job = Job(lambda: vlib.run_tlc(pinned_ctx, "Ogg_MC", "Ogg_pinned", workers=1, quiet_ok=True, timeout=300))
 
     # 2. vectors from TLC's simulator over the full alphabet (all TOC bytes, boundary and random sizes, 1-3 tracks)
     nvec = 250 if quick else 5000
@@ -38,14 +39,14 @@ def run_ogg(ctx):
     ctx.viol = par_tlc_trace(ctx, "Ogg_Trace", "Ogg_Trace", trace, 2 if quick else 8)
     ctx.log("TLC trace Ogg_Trace: %d lines, %d violation records" % (ctx.cov.get("trace_lines_validated", 0), len(ctx.viol)))
     finish_models(ctx, mc)
-    asis = asis_job.result()
-    ctx.cov["tlc_runs"] += asis_ctx.cov["tlc_runs"]
-    ctx.cov["asis_model_rc"] = asis.rc
-    ctx.cov["asis_model_counterexample"] = "Invariant ModelEos is violated" in asis.stdout
-    ctx.cov["states"] += asis.distinct
-    ctx.cov["transitions"] += asis.generated
-    if not ctx.cov["asis_model_counterexample"]:
-        ctx.notes.append("model drift: the as-is model did not exhibit the missing-EOS counterexample")
+    pinned = pinned_job.result()
+    ctx.cov["tlc_runs"] += pinned_ctx.cov["tlc_runs"]
+    ctx.cov["pinned_model_rc"] = pinned.rc
+    ctx.cov["pinned_model_counterexample"] = "Invariant ModelEos is violated" in pinned.stdout
+    ctx.cov["states"] += pinned.distinct
+    ctx.cov["transitions"] += pinned.generated
+    if not ctx.cov["pinned_model_counterexample"]:
+        ctx.notes.append("the pinned-code variant of the model did not exhibit the missing-EOS counterexample")
 
     lines = vlib.read_ndjson(trace)
     pages = [l for l in lines if l["ev"] == "page"]
@@ -70,7 +71,10 @@ def run_ogg(ctx):
     ctx.cov["multi_page_opustags_streams"] = sum(1 for s in streams if s["tag"] == "big")
     ctx.cov["constructor_errors"] = sum(1 for l in lines if l["ev"] == "ctor_err")
     ctx.cov["write_errors"] = sum(l["werrs"] for l in files)
-    ctx.cov["model_drift_behaviours"] = sum(1 for l in files if l["model_pages"] != l["npages"])
+    # generative model vs code, outside any verdict: pages other than those of the OpusHead / OpusTags packets (whose
+    # sizes are abstract in the model) predicted by the model vs found in the output
+    ctx.cov["model_drift_behaviours"] = sum(1 for l in files if l["model_data_pages"] != l["ndata"])
+    ctx.cov["header_page_count_differences"] = sum(1 for l in files if l["model_pages"] != l["npages"])
     ctx.cov["samples"] = [{"vector": v} for v in vecs[:2]] + \
         [{k: p[k] for k in ("sig", "tr", "pseq", "bos", "cont", "eos", "gran", "crc_ok", "segs", "rd")} for p in pages[:2]] + \
         [{k: s[k] for k in ("sig", "sink", "tr", "npages", "nrec", "hdr_got")} for s in streams[:1]]
@@ -93,8 +97,8 @@ def run_ogg(ctx):
     return vlib.finish(
         ctx, "model_checking",
         rule="TLC exhausts the transcribed page construction and both writer APIs for the bounds of Ogg_MC* (normative operators "
-             "as invariants, lacing round trip for every length around the boundaries) and exhibits the missing EOS on the as-is "
-             "variant; vectors = closed behaviours of the same machine drawn by TLC's simulator over the full alphabet; one "
+             "as invariants, lacing round trip for every length around the boundaries) and exhibits the missing EOS on the variant "
+             "of the originally pinned code; vectors = closed behaviours of the same machine drawn by TLC's simulator over the full alphabet; one "
              "evaluation = one normative predicate applied by TLC to a page / logical stream / file of the real writers; "
              "distinct = distinct (api, sink, channel cfg, tags cfg, tracks, packet sizes) among judged streams",
         distinct_nontrivial=len(distinct), exhaustive=False, replay_of=replay_of)
